@@ -467,7 +467,9 @@ func runParent(e Engine, tier string, seed uint64, workers int, budget time.Dura
 		reported[sig] = true
 		c := v.c
 		minimized := false
-		if !noMin && v.v.Class != "process-fatal" {
+		// a listed known finding is reported as found: no minimisation
+		isKnown := matchKnown(known, sig, v.v) != nil
+		if !noMin && !isKnown && v.v.Class != "process-fatal" {
 			deadline := time.Now().Add(2 * time.Minute)
 			still := func(cand json.RawMessage) bool {
 				if time.Now().After(deadline) {
